@@ -33,8 +33,9 @@ CLASSES = ["nRF54H20_sample_app", "App", "app", "", "Class With Spaces", "клю
            "00000000000000000000000000000000", "6ba7b810-9dad-11d1-80b4-00c04fd430c8", "007", "7", "0x1f", "31", "\u0661\u0662", "true", "y", "n"]
 
 
-def minimal(vendor, cls, seq=1):
-    cid = {"RFC4122_UUID": {"namespace": vendor, "name": cls}}
+def minimal(vendor, cls, seq=1, name_first=False):
+    # a mapping has no order: the two members of the long form may be written either way round (sorted dumps write "name" first)
+    cid = {"RFC4122_UUID": {"name": cls, "namespace": vendor} if name_first else {"namespace": vendor, "name": cls}}
     return {"SUIT_Envelope_Tagged": {
         "suit-authentication-wrapper": {"SuitDigest": {"suit-digest-algorithm-id": "cose-alg-sha-256"}},
         "suit-manifest": {
@@ -59,7 +60,9 @@ def judge(case, acc, ctx):
         cid = uuid.uuid5(uuid.UUID(bytes=vid), cls).bytes
         problems = []
         # (1) manifest
-        data = sut.create_mem(minimal(vendor, cls))
+        name_first = (len(vendor) + len(cls) + len(config)) % 2 == 1
+        acc.note("uuid-members:name-first" if name_first else "uuid-members:namespace-first")
+        data = sut.create_mem(minimal(vendor, cls, name_first=name_first))
         man = cb.loads(cb.loads(data).value.get(3))
         common = cb.loads(man.get(3))
         params = cb.loads(common.get(4))[1]
@@ -233,6 +236,6 @@ def replay(ctx, check, case):
 def finalize(ctx, m, ev):
     c = m["counters"]
     for n in ["vendor:empty", "vendor:upper", "vendor:non-ascii", "vendor:space", "class:empty", "class:long", "config", "dup-config", "placed", "not-named",
-              "config-collides-with-default", "soc:nrf9280"]:
+              "config-collides-with-default", "soc:nrf9280", "uuid-members:name-first", "uuid-members:namespace-first"]:
         if not c.get(n):
             raise boot.HarnessError(f"interesting class {n} is empty")
